@@ -76,6 +76,7 @@ type c15World struct {
 	oracle  []string
 	feat    map[string]bool
 	fatal   string
+	win     *Session // session whose shutdown window is open
 }
 
 func c15Wait(cond func() bool, d time.Duration) bool {
@@ -149,6 +150,10 @@ func c15NewWorld(id, cap int) (*c15World, error) {
 }
 
 func (w *c15World) close() {
+	if w.win != nil {
+		w.win.shutdownLock.Unlock()
+		w.win = nil
+	}
 	w.sm.Close()
 	w.mu.Lock()
 	for _, s := range w.servers {
@@ -281,6 +286,9 @@ func (w *c15World) checkQuiescent(sn c15Snap, after string) {
 }
 
 func (w *c15World) rec(c *c15Case, op c15Op) {
+	if w.fatal != "" {
+		return
+	}
 	op.Snap = w.snap()
 	c.Ops = append(c.Ops, op)
 	w.checkQuiescent(op.Snap, fmt.Sprintf("op %d (%s)", len(c.Ops)-1, op.Op))
@@ -357,6 +365,14 @@ func (w *c15World) opGet(c *c15Case, caller int) {
 }
 
 func (w *c15World) opPut(c *c15Case, caller, i int) {
+	if i < 0 || i >= len(w.streams) {
+		w.fatal = fmt.Sprintf("script diverged: stream #%d was never handed out (the pool returned an unexpected stream earlier)", i)
+		return
+	}
+	if h, ok := w.held[i]; !ok || h != caller {
+		w.fatal = fmt.Sprintf("script diverged: caller %d does not hold stream #%d", caller, i)
+		return
+	}
 	s := w.streams[i]
 	if s.sendBuf.Len() > 0 && s.IsOpen() {
 		w.dirtyS[i] = true
@@ -406,6 +422,10 @@ func (w *c15World) srvDrain(ss *Stream) {
 // NOTE: touching the buffers of a stream whose session has shut down faults (the shared memory is
 // unmapped by Session.Close; that is C14's subject) - the generator never does it.
 func (w *c15World) opWrite(c *c15Case, caller, i, n int) {
+	if i < 0 || i >= len(w.streams) {
+		w.fatal = fmt.Sprintf("script diverged: stream #%d was never handed out (the pool returned an unexpected stream earlier)", i)
+		return
+	}
 	s := w.streams[i]
 	if s.session.IsClosed() {
 		return
@@ -428,6 +448,10 @@ func (w *c15World) exhaust(bm *bufferManager) []*bufferSlice {
 }
 
 func (w *c15World) opFlush(c *c15Case, caller, i int) {
+	if i < 0 || i >= len(w.streams) {
+		w.fatal = fmt.Sprintf("script diverged: stream #%d was never handed out (the pool returned an unexpected stream earlier)", i)
+		return
+	}
 	s := w.streams[i]
 	if s.session.IsClosed() {
 		return
@@ -465,6 +489,10 @@ func (w *c15World) opFlush(c *c15Case, caller, i int) {
 
 // write n bytes while the shared memory is exhausted (heap slice => Flush goes through the socket)
 func (w *c15World) opWriteFb(c *c15Case, caller, i, n int) {
+	if i < 0 || i >= len(w.streams) {
+		w.fatal = fmt.Sprintf("script diverged: stream #%d was never handed out (the pool returned an unexpected stream earlier)", i)
+		return
+	}
 	s := w.streams[i]
 	if s.session.IsClosed() || s.sendBuf.sliceList.size() > 0 {
 		// a reserved (swapped-in) slice would take the bytes: plain write
@@ -480,6 +508,10 @@ func (w *c15World) opWriteFb(c *c15Case, caller, i, n int) {
 }
 
 func (w *c15World) opSrvSend(c *c15Case, i, n int) bool {
+	if i < 0 || i >= len(w.streams) {
+		w.fatal = fmt.Sprintf("script diverged: stream #%d was never handed out (the pool returned an unexpected stream earlier)", i)
+		return false
+	}
 	ss := w.srvStream(i)
 	s := w.streams[i]
 	if ss == nil || !ss.IsOpen() || s.getStreamState() == uint32(streamClosed) || s.session.IsClosed() {
@@ -507,6 +539,10 @@ func (w *c15World) opSrvSend(c *c15Case, i, n int) bool {
 }
 
 func (w *c15World) opRead(c *c15Case, caller, i, k int) bool {
+	if i < 0 || i >= len(w.streams) {
+		w.fatal = fmt.Sprintf("script diverged: stream #%d was never handed out (the pool returned an unexpected stream earlier)", i)
+		return false
+	}
 	s := w.streams[i]
 	if s.session.IsClosed() {
 		return false
@@ -525,6 +561,10 @@ func (w *c15World) opRead(c *c15Case, caller, i, k int) bool {
 }
 
 func (w *c15World) opRelease(c *c15Case, caller, i int) {
+	if i < 0 || i >= len(w.streams) {
+		w.fatal = fmt.Sprintf("script diverged: stream #%d was never handed out (the pool returned an unexpected stream earlier)", i)
+		return
+	}
 	if w.streams[i].session.IsClosed() {
 		return
 	}
@@ -533,11 +573,19 @@ func (w *c15World) opRelease(c *c15Case, caller, i int) {
 }
 
 func (w *c15World) opCloseS(c *c15Case, caller, i int) {
+	if i < 0 || i >= len(w.streams) {
+		w.fatal = fmt.Sprintf("script diverged: stream #%d was never handed out (the pool returned an unexpected stream earlier)", i)
+		return
+	}
 	w.streams[i].Close()
 	w.rec(c, c15Op{Op: "closes", C: caller, S: i})
 }
 
 func (w *c15World) opSrvClose(c *c15Case, i int) bool {
+	if i < 0 || i >= len(w.streams) {
+		w.fatal = fmt.Sprintf("script diverged: stream #%d was never handed out (the pool returned an unexpected stream earlier)", i)
+		return false
+	}
 	ss := w.srvStream(i)
 	s := w.streams[i]
 	if ss == nil || !ss.IsOpen() || s.session.IsClosed() {
@@ -600,6 +648,48 @@ func (w *c15World) opSessLoss(c *c15Case) {
 	w.rec(c, c15Op{Op: "sessloss"})
 }
 
+// The window in which the session is already shut down (shutdown flag set) but its streams have not
+// been closed yet: Session.Close() has set the flag and waits for shutdownLock, which the harness holds.
+// (shutdownErr is pre-set as Close would do next, otherwise OpenStream returns (nil, nil) in the window.)
+func (w *c15World) opShutWin(c *c15Case) {
+	old := w.pool().Session()
+	old.shutdownLock.Lock()
+	if old.shutdownErr == nil {
+		old.shutdownErr = ErrSessionShutdown
+	}
+	go old.Close()
+	if !c15Wait(func() bool { return old.IsClosed() }, 10*time.Second) {
+		w.fatal = "Session.Close did not set the shutdown flag"
+	}
+	w.win = old
+	w.feat["shutdown-window"] = true
+	w.rec(c, c15Op{Op: "shutwin"})
+}
+
+func (w *c15World) opEndWin(c *c15Case) {
+	old := w.win
+	w.win = nil
+	old.shutdownLock.Unlock()
+	ok := c15Wait(func() bool {
+		old.streamLock.RLock()
+		cleaned := old.streams == nil
+		old.streamLock.RUnlock()
+		cur := w.pool().Session()
+		return cleaned && cur != old && !cur.IsClosed()
+	}, 30*time.Second)
+	if !ok {
+		w.fatal = "session was not rebuilt within 30 s"
+		return
+	}
+	cur := w.pool().Session()
+	if _, known := w.sessIdx[cur]; !known {
+		w.sessIdx[cur] = len(w.sessIdx)
+	}
+	c15Wait(func() bool { return w.serverOf(cur) != nil }, 10*time.Second)
+	w.feat["session-loss"] = true
+	w.rec(c, c15Op{Op: "endwin"})
+}
+
 // ---- generator -------------------------------------------------------------------------------
 
 func c15History(w *c15World, r *vrand, c *c15Case, nops int) {
@@ -640,6 +730,26 @@ func c15History(w *c15World, r *vrand, c *c15Case, nops int) {
 	for len(c.Ops) < nops && w.fatal == "" {
 		caller := r.intn(ncallers)
 		x := r.intn(100)
+		if w.win != nil {
+			// inside the shutdown window only pool operations make sense
+			switch {
+			case x < 30:
+				if len(w.held) < w.cap+3 {
+					w.opGet(c, caller)
+				}
+			case x < 70:
+				if l := heldBy(caller); len(l) > 0 {
+					w.opPut(c, caller, l[r.intn(len(l))])
+				}
+			case x < 80:
+				if cl, i, ok := anyHeld(); ok {
+					w.opCloseS(c, cl, i)
+				}
+			default:
+				w.opEndWin(c)
+			}
+			continue
+		}
 		switch {
 		case x < 22:
 			if len(w.held) < w.cap+3 {
@@ -725,9 +835,16 @@ func c15History(w *c15World, r *vrand, c *c15Case, nops int) {
 		default:
 			if losses < 1 && len(c.Ops) > 8 {
 				losses++
-				w.opSessLoss(c)
+				if r.chance(50) {
+					w.opSessLoss(c)
+				} else {
+					w.opShutWin(c)
+				}
 			}
 		}
+	}
+	if w.win != nil && w.fatal == "" {
+		w.opEndWin(c)
 	}
 }
 
@@ -794,6 +911,17 @@ func c15Directed(w *c15World, c *c15Case, which int) {
 		w.opPut(c, 1, 3)
 		w.opGet(c, 0)
 		w.opPut(c, 0, 4)
+	case 5: // the session is shut down but its streams are still open
+		w.opGet(c, 0)
+		w.opGet(c, 1)
+		w.opPut(c, 0, 0)
+		w.opShutWin(c)
+		w.opGet(c, 0) // must not return the pooled stream of the dead session
+		w.opPut(c, 1, 1)
+		w.opGet(c, 1)
+		w.opEndWin(c)
+		w.opGet(c, 0)
+		w.opPut(c, 0, 2)
 	}
 }
 
@@ -910,7 +1038,7 @@ func TestVerif_C15(t *testing.T) {
 	var jobs []job
 	r := newVrand(seed)
 	id := 0
-	for d := 0; d < 5; d++ {
+	for d := 0; d < 6; d++ {
 		caps := []int{2}
 		if d == 3 {
 			caps = []int{1, 2, 3}
@@ -938,6 +1066,12 @@ func TestVerif_C15(t *testing.T) {
 			defer wg.Done()
 			defer func() { <-sem }()
 			c := c15Case{ID: j.id, Kind: j.kind, Cap: j.cap}
+			defer func() {
+				if e := recover(); e != nil {
+					c.Note += fmt.Sprintf(" HARNESS: panic: %v", e)
+					results[k] = c
+				}
+			}()
 			w, err := c15NewWorld(j.id, j.cap)
 			if err != nil {
 				c.Note = "setup failed: " + err.Error()
